@@ -50,7 +50,7 @@ func main() {
 		return nil
 	})
 	sort.Strings(dirs)
-	var pkgVars, keeperFields, clockCalls, goStmts, mapRanges, genesisFields, storePrefixes, blockers, coinCalls []fact
+	var pkgVars, keeperFields, clockCalls, goStmts, mapRanges, genesisFields, storePrefixes, blockers, coinCalls, msgHandlers []fact
 	for _, rel := range dirs {
 		fset := token.NewFileSet()
 		pkgs, err := parser.ParseDir(fset, filepath.Join(*repo, rel), func(fi os.FileInfo) bool {
@@ -159,6 +159,9 @@ func main() {
 						if d.Recv != nil && len(d.Recv.List) > 0 {
 							fn = exprStr(d.Recv.List[0].Type) + "." + fn
 						}
+						if strings.HasPrefix(fn, "msgServer.") && ast.IsExported(d.Name.Name) && strings.HasSuffix(rel, "/keeper") {
+							msgHandlers = append(msgHandlers, fact{rel, base, d.Name.Name})
+						}
 						if fn == "BeginBlocker" || fn == "EndBlocker" || fn == "EndBlock" || fn == "BeginBlock" {
 							blockers = append(blockers, fact{rel, base, fn})
 						}
@@ -232,6 +235,7 @@ func main() {
 	emit("genesisFields", "fields of each module's GenesisState (directory, field, type)", genesisFields)
 	emit("storePrefixes", "store key prefixes declared in */types (directory, constant, value)", storePrefixes)
 	emit("coinCalls", "calls that create, destroy or move coins (file, function, callee) in keepers, module roots and app", coinCalls)
+	emit("msgHandlers", "message handlers: exported methods of msgServer in */keeper (directory, file, handler)", msgHandlers)
 	emit("blockers", "begin/end blocker entry points (directory, file, function)", blockers)
 	b.WriteString("end SaoVerif.Generated\n")
 	if *out == "" {
